@@ -151,6 +151,7 @@ func runC09(x *Ctx) {
 	// a deferred recover that turns a panic into an error must put it into a named result
 	deferredErrorCellsRule(x, R, "C09.P1")
 	nilCursors(x, fns)
+	tableCalls(x, fns)
 	loopsRule(x, fns)
 	recursionRules(x, fns, R)
 	allocations(x, fns)
